@@ -753,9 +753,8 @@ def abbreviate(rng, tr):
 def deck_classes(deck, moved):
     '''Known-finding classes a failing deck of the sweep may belong to.'''
     classes = set()
-    for s, spec in moved:
-        if spec.get('B') is None:
-            continue
+    for s, _spec in moved:
+        # a pure translation (B None) moves an SQ just as well
         if s['mn'] == 'sq':
             classes.add('sq_under_transformation')
     return classes
